@@ -77,6 +77,16 @@ CLAIMED = {
              "skip busy replies), the SDO source of parse_pdos is not modelled; harness/sim_bus.py EEPROM interface trusted.",
         technique="Coq proof (reader invariant + codec inversion by induction) + differential correspondence on a simulated EEPROM interface",
         ref="7/C17"),
+    "C25": dict(
+        text="Theorem C25_unique / C25_invariant: in the labelled transition system whose steps are the atomic code sections of find_free_address / "
+             "assigned_address (between awaits), for every bus, every interleaving of any number of tasks and every sequence of random draws, handed-out "
+             "addresses are in range, pairwise distinct and different from every address at which a terminal answered (induction over the event list). "
+             "Tied to the code by recording the real event trace (scripted randint, probe results, register writes) of concurrent assigned_address tasks on "
+             "the simulated bus and replaying it in the model; scan_serial_numbers runs are checked by the oracle.",
+        note=TB + "Modelled: the three atomic sections of find_free_address/assigned_address (Ecat/Addr.v); asyncio atomicity between awaits is assumed; "
+             "pre-assigned addresses are assumed stable.",
+        technique="Coq invariant proof over all interleavings + trace-replay correspondence",
+        ref="7/C25"),
 }
 
 REASONS_NOT_YET = "no check built yet in this round (planned, see DESIGN.md section 7); nothing is claimed for it"
